@@ -138,13 +138,12 @@ def expected_validator(p: dict) -> Any:
             base = ("instance_of", float)
     elif t["kind"] == "stringLiteral":
         return ("in", (t["value"],))
-    elif t["kind"] == "or" and len(t["items"]) == 2 and all(i["kind"] == "base" for i in t["items"]):
-        # `integer | null`, `uinteger | null`: an integer property all the same - its range holds whenever it is not null (C11)
-        names = sorted(i["name"] for i in t["items"])
-        if names == ["integer", "null"]:
-            return ("optional", ("fn", "validators", "integer_validator"))
-        if names == ["null", "uinteger"]:
-            return ("optional", ("fn", "validators", "uinteger_validator"))
+    elif t["kind"] == "or" and len(t["items"]) == 2 and all(i["kind"] == "base" for i in t["items"]) \
+            and [i["name"] for i in t["items"]].count("null") == 1:
+        # `B | null`: a property of base type B all the same - B's validator holds whenever the value is not null
+        # (`integer | null` keeps its range - C11; `string | null` is a string when it is not null)
+        inner = expected_validator({"type": next(i for i in t["items"] if i["name"] != "null")})
+        return ("optional", inner) if inner is not None else None
     if t["kind"] == "or" and len(t["items"]) == 2 and sorted(i["kind"] for i in t["items"]) == ["base", "stringLiteral"] \
             and any(i["kind"] == "base" and i["name"] == "null" for i in t["items"]):
         # `"x" | null`: a string-literal property all the same - it only accepts its literal (or null)
